@@ -211,6 +211,13 @@ theorem returned_call_keeps_callers_exception (env : Env) (ef : Node → St → 
     rw [keepExc_fst] at hp
     rw [keepExc_ok s p v hp]
     exact ⟨rfl, rfl⟩
+  by_cases ha : env.alive n.1 = true
+  case neg =>
+    -- a cells that does not exist returns nothing
+    have ha' : env.alive n.1 = false := by simpa using ha
+    simp only [ha', Bool.false_eq_true, if_false] at h
+    cases h
+  simp only [ha, if_true] at h ⊢
   by_cases hc : env.cached n.1 = true
   · simp only [hc, if_true] at h ⊢
     cases hl : lookup s.data n with
